@@ -246,7 +246,7 @@ def at_scale(ctx):
 
 
 def run(ctx):
-    ctx.check_proofs(["MPilot.Props.C07"])
+    ctx.check_proofs(["MPilot.Props.C07", "MPilot.Props.C07Types"])
     model = common.Model()
     orc = numeric.combine(
         numeric.oracle_definition(ctx, reference.ARITH_OPS, "arithmetic", dtype_rule=reference.arith_dtype),
